@@ -374,6 +374,39 @@ func genC01(c *Ctx) {
 			}
 		}
 	}
+	// sparse private keys: every power of two below r, and sums of two or three powers (scalar multiplication that
+	// takes a short path when a range of bits of the key is zero): signatures predicted from key and message
+	{
+		h := crypto.NewExpandMsgXOFKMAC128("sparse-keys")
+		msg := c.bytes(11)
+		hp := hashPoint(msg, h)
+		emitKey := func(class string, k *big.Int) {
+			if k.Sign() == 0 || k.Cmp(blsR) >= 0 {
+				return
+			}
+			sk := skFromInt(k)
+			sig, err := sk.Sign(msg, h)
+			if err != nil {
+				panic(err)
+			}
+			c.Case(class, fmt.Sprintf("sig.expect 0x%s %s", k.Text(16), hx(hp)), "ok "+hx(sig))
+			if k.BitLen()%16 == 1 {
+				emitVerify(class+"/verify", blsKey{k: k, sk: sk, pk: sk.PublicKey(), kind: "sparse"}, hp, sig, verifyAns(sk.PublicKey(), sig, msg, h))
+			}
+		}
+		one := big.NewInt(1)
+		for b := 0; b < 255; b++ {
+			emitKey("sparse-keys/power-of-two", new(big.Int).Lsh(one, uint(b)))
+		}
+		for i := 0; i < 40; i++ {
+			k := new(big.Int).Lsh(one, uint(128+c.intn(127)))
+			k.Add(k, new(big.Int).Lsh(one, uint(c.intn(128))))
+			if i%2 == 0 {
+				k.Add(k, new(big.Int).Lsh(one, uint(c.intn(255))))
+			}
+			emitKey("sparse-keys/few-bits", k)
+		}
+	}
 	// fixed hashers: chosen 128-byte outputs including chunks >= p
 	ones := make([]byte, 128)
 	for i := range ones {
